@@ -449,10 +449,11 @@ impl<'a> forward_interprocedural_fixpoint::Context<'a> for Context<'a> {
             Jmp::Call { target, .. } => {
                 if let Some(extern_symbol) = self.project.program.term.extern_symbols.get(target) {
                     self.handle_extern_symbol_call(&mut new_state, extern_symbol, &call.tid);
-                    if !extern_symbol.no_return {
-                        self.adjust_stack_register_on_return_from_call(state, &mut new_state);
-                        return Some(new_state);
-                    }
+                    // Calls to non-returning functions return to an artificial sink block (which is a dead end).
+                    // We still have to return the state for them,
+                    // because otherwise the accesses to the parameters of the call would get lost.
+                    self.adjust_stack_register_on_return_from_call(state, &mut new_state);
+                    return Some(new_state);
                 } else if let Some(cconv) = self.project.get_standard_calling_convention() {
                     new_state.handle_unknown_function_stub(
                         call,
